@@ -184,20 +184,25 @@ def poly(d, files, a, b, fault_at):
             "leftovers": left, "expected": expected, "out_formats": out_formats}
 
 
-def recur(d, n, member):
+def recur(d, n, member, container="tar"):
     """the recursive property discovery (it looks inside tar and zip archives) on an archive whose member name is legal for
     the container but that the usual writers never produce: inspection stays read-only and leaves nothing anywhere"""
     area = os.path.join(d, "recur_area")
     shutil.rmtree(area, ignore_errors=True)
     inner = os.path.join(area, "a", "b")
     os.makedirs(inner)
-    p = os.path.join(inner, f"arch{n}.tar")
-    with tarfile.open(p, "w") as t:
-        for name in ("pickle", member):
-            body = pickle.dumps({"n": n}, 2)
-            ti = tarfile.TarInfo(name)
-            ti.size = len(body)
-            t.addfile(ti, io.BytesIO(body))
+    p = os.path.join(inner, f"arch{n}.{container}")
+    body = pickle.dumps({"n": n}, 2)
+    if container == "tar":
+        with tarfile.open(p, "w") as t:
+            for name in ("pickle", member):
+                ti = tarfile.TarInfo(name)
+                ti.size = len(body)
+                t.addfile(ti, io.BytesIO(body))
+    else:
+        with zipfile.ZipFile(p, "w") as z:
+            for name in ("plain.pkl", member):
+                z.writestr(zipfile.ZipInfo(name), body)
     # temporary directories are created three levels inside the watched area, so that a member written outside its
     # temporary directory still lands where the listing sees it
     tdir = os.path.join(area, "t", "u", "v")
@@ -213,7 +218,7 @@ def recur(d, n, member):
         det, exc = True, type(e).__name__
     finally:
         tempfile.tempdir = old
-    rec = {"kind": "recur", "member": member, "deterministic": bool(det), "same_bytes": sha(p) == h0,
+    rec = {"kind": "recur", "member": member, "container": container, "deterministic": bool(det), "same_bytes": sha(p) == h0,
            "same_listing": listing(area) == l0, "new_files": sorted(set(listing(area)) - set(l0))[:3], "exc": exc}
     shutil.rmtree(area, ignore_errors=True)
     return rec
@@ -226,6 +231,7 @@ def main():
     out = [cell(c, d, i) for i, c in enumerate(spec["cells"])]
     for n, member in enumerate(("plain.bin", "dir/inner.bin", "../escaped.bin", "../../escaped2.bin", "./dot.bin")):
         out.append(recur(d, n, member))
+        out.append(recur(d, n, member, "zip"))
     if spec.get("poly"):
         files = real_files(d)
         # real files also go through identification (TorchAccepts => PyTorch v1.3)
